@@ -19,7 +19,7 @@ class Stream:
     a disagreement is a failing input by itself)."""
 
     def __init__(self, name, role, impl_lines, model_lines=None, judge=None, nontrivial=None,
-                 exhaustive=False, rule="", canon=None, impl_env=None, known=None, post=None):
+                 exhaustive=False, rule="", canon=None, impl_env=None, known=None, post=None, known_query=None):
         self.name = name
         self.role = role
         self.impl_lines = impl_lines
@@ -34,6 +34,8 @@ class Stream:
         # role 'check': post(impl_line, impl_out) -> model line evaluating the property's own boolean
         # checker on the implementation's output; the expected model output is "B:1"
         self.post = post
+        # known_query(impl_line) -> (finding id, model line evaluating the finding's Coq class predicate)
+        self.known_query = known_query
 
 
 def load_known_findings():
@@ -167,8 +169,19 @@ def run_check(pid, tier, seed):
                                  "wall_s": round(time.time() - ts, 2)})
             mismatches_total += len(mism)
             # classify
-            for (i, line, a, b) in mism[:2000]:
+            kq = {}
+            if st.known_query and mism:
+                qs = [st.known_query(line) for (_, line, _, _) in mism[:5000]]
+                qs = [q for q in qs if q]
+                if qs:
+                    ans = rvlib.run_sharded(rvm, [q[1] for q in qs], work, st.name + ".kf")
+                    for (fid, ql), an in zip(qs, ans):
+                        if an == "B:1":
+                            kq[ql.split("\t", 1)[1]] = fid
+            for (i, line, a, b) in mism[:5000]:
                 kid = st.known(line, a, b) if st.known else None
+                if not kid and kq:
+                    kid = kq.get(line.split("\t", 1)[1])
                 if kid:
                     known_hit.setdefault(kid, (st.name, line, a, b))
                     continue
